@@ -156,6 +156,12 @@ fn gen_transform(ch: &mut Chooser) -> Option<Matrix4<f32>> {
             ch.float("xf_s", 0.5, 2.0, 6),
         ));
     }
+    if ch.odds("xf_mirror", 1, 5) {
+        // a reflection of one axis (negative determinant)
+        let mut d = Vector3::new(1.0, 1.0, 1.0);
+        d[ch.choose("xf_mirror_axis", 3) as usize] = -1.0;
+        m *= Matrix4::new_nonuniform_scaling(&d);
+    }
     if ch.flag("xf_has_translation") {
         m = Matrix4::new_translation(&Vector3::new(
             ch.float_sym("xf_t", 2.0, 8),
